@@ -30,6 +30,9 @@ type keyring struct {
 	// for the channel peer's SINGLE|ANYONECANPAY signature on second-level
 	// HTLC transactions (script validity is not part of C18).
 	peerSig input.Signature
+	// parent, when set, is the unconfirmed parent the next anchor input
+	// built by buildInput reports (CPFP)
+	parent *input.TxInfo
 }
 
 func newKeyring() *keyring {
@@ -133,6 +136,10 @@ func (k *keyring) buildInput(kind inputKind, idx int, value int64, hint, csv, cl
 		}
 		desc.WitnessScript = ws
 		desc.Output = &wire.TxOut{Value: value, PkScript: p2wsh(ws)}
+		if k.parent != nil {
+			bi := input.MakeBaseInput(&op, input.CommitmentAnchor, desc, hint, k.parent)
+			return &bi, nil, nil
+		}
 		return input.NewBaseInput(&op, input.CommitmentAnchor, desc, hint), nil, nil
 
 	case kindHtlcRemoteTimeout:
